@@ -21,8 +21,11 @@ RULES = {
     "deduplication keys depend on dtype, shape and content",
     "R4": "an Identity from a graph input/initializer to a graph output is kept: the early exit dominates the rewrite; "
     "GRAPH/GRAPHS attributes are treated alike in every pass (S1)",
+    "R5": "history-free pass objects: a field of a pass object that is written while the pass runs (per-run state) is "
+    "re-initialised unconditionally in call()/requires() before its first use in that run, so the result for a model "
+    "does not depend on the models the same pass object (or Sequential/PassManager holding it) processed before",
 }
-FLOORS = {"R1": 5, "R2": 6, "R3": 8, "R4": 6}
+FLOORS = {"R1": 5, "R2": 6, "R3": 8, "R4": 6, "R5": 8}
 EXPLANATION = (
     "Four structural necessary conditions of semantic preservation that the pass mechanisms rely on: guarded removal, "
     "interface-size preservation (call-site scan with receiver typing), data-dependence of the equivalence keys on all "
@@ -240,7 +243,134 @@ def rule_r4(ctx):
     ctx.require(n >= 4, "GRAPH/GRAPHS dispatch sites in passes not found")
 
 
+_MUT = {"add", "update", "append", "extend", "insert", "pop", "remove", "clear", "discard", "setdefault", "popitem", "sort", "reverse"}
+
+
+def _self_field(e, selfname):
+    return e.attr if isinstance(e, ast.Attribute) and isinstance(e.value, ast.Name) and e.value.id == selfname else None
+
+
+def _field_writes_of(f: FuncInfo) -> set[str]:
+    """self.<F> fields stored or mutated in place in f."""
+    me = f.params[0] if f.params else "self"
+    out = set()
+    for n in own_nodes(f.node):
+        if isinstance(n, (ast.Assign, ast.AugAssign, ast.AnnAssign, ast.Delete)):
+            tg = n.targets if isinstance(n, (ast.Assign, ast.Delete)) else [n.target]
+            for t in tg:
+                b = t
+                while isinstance(b, ast.Subscript):
+                    b = b.value
+                if _self_field(b, me) and (isinstance(n, ast.Delete) or not isinstance(n, ast.AnnAssign) or n.value is not None):
+                    out.add(b.attr)
+        elif isinstance(n, ast.Call) and isinstance(n.func, ast.Attribute) and n.func.attr in _MUT and _self_field(n.func.value, me):
+            out.add(n.func.value.attr)
+    return out
+
+
+class _RunState:
+    """Syntax-directed summary per method: fields reset at top level, and run-state fields used before being reset."""
+
+    def __init__(self, ctx, cls, fields):
+        self.ctx, self.cls, self.fields = ctx, cls, fields
+        self.memo: dict[str, tuple] = {}
+
+    def method(self, name):
+        m = self.ctx.repo.lookup(self.cls, name)
+        return m if isinstance(m, FuncInfo) and m.cls is not None and not m.cls.external else None
+
+    def summary(self, m: FuncInfo, stack=()):
+        if m.key in self.memo:
+            return self.memo[m.key]
+        if m.key in stack:
+            return (set(), [])
+        me = m.params[0] if m.params else "self"
+        reset: set[str] = set()
+        exposed: list[tuple] = []  # (field, node, via)
+
+        def uses_in(node, skip_target=None):
+            for x in ast.walk(node):
+                if x is skip_target:
+                    continue
+                fld = _self_field(x, me)
+                if fld in self.fields and fld not in reset:
+                    exposed.append((fld, x, m.local))
+                if isinstance(x, ast.Call) and isinstance(x.func, ast.Attribute) and isinstance(x.func.value, ast.Name) and x.func.value.id == me:
+                    g = self.method(x.func.attr)
+                    if g is not None:
+                        _, ex = self.summary(g, stack + (m.key,))
+                        for fld2, n2, via in ex:
+                            if fld2 not in reset:
+                                exposed.append((fld2, x, f"{m.local} → {via}"))
+
+        for st in m.node.body:
+            # a top-level `self.F = <expr without self.F>` (or a top-level call of a resetting helper) resets F for the run
+            if isinstance(st, (ast.Assign, ast.AnnAssign)) and getattr(st, "value", None) is not None:
+                tg = st.targets if isinstance(st, ast.Assign) else [st.target]
+                flds = [_self_field(t, me) for t in tg]
+                if all(flds) and len(flds) == 1:
+                    uses_in(st.value)
+                    if not any(_self_field(x, me) == flds[0] for x in ast.walk(st.value)):
+                        reset.add(flds[0])
+                    continue
+            if isinstance(st, ast.Expr) and isinstance(st.value, ast.Call) and isinstance(st.value.func, ast.Attribute) \
+                    and isinstance(st.value.func.value, ast.Name) and st.value.func.value.id == me:
+                g = self.method(st.value.func.attr)
+                if g is not None:
+                    uses_in(st)
+                    r, _ = self.summary(g, stack + (m.key,))
+                    reset |= r
+                    continue
+            uses_in(st)
+        self.memo[m.key] = (reset, exposed)
+        return self.memo[m.key]
+
+
+def rule_r5(ctx):
+    repo = ctx.repo
+    base = repo.cls("onnx_ir.passes._pass_infra:PassBase")
+    n_cls = n_fields = 0
+    table = {}
+    for m in repo.modules.values():
+        if not m.name.startswith("onnx_ir.passes"):
+            continue
+        for c in m.classes.values():
+            if c is base or not repo.is_subclass(c, base):
+                continue
+            n_cls += 1
+            run_state = set()
+            for k in repo.mro(c):
+                if getattr(k, "external", True) or k is base:
+                    continue
+                for name, f in k.methods.items():
+                    if name not in ("__init__", "__new__"):
+                        run_state |= _field_writes_of(f)
+            table[c.key] = sorted(run_state)
+            rs = _RunState(ctx, c, run_state)
+            for entry in ("requires", "call"):
+                e = rs.method(entry)
+                if e is None or e.cls is base:
+                    continue
+                _, exposed = rs.summary(e)
+                seen = set()
+                for fld in sorted(run_state):
+                    n_fields += 1
+                    ex = [x for x in exposed if x[0] == fld]
+                    ctx.check("R5", f"{c.name}.{entry}: per-run field {fld} is reset before use", not ex, e, ex[0][1] if ex else e.node,
+                              (f"`self.{fld}` is written while the pass runs but {c.name}.{entry} uses it ({ex[0][2]}: `{norm(ex[0][1])}`) before "
+                               "re-initialising it unconditionally: what an earlier run of the same pass object left there decides what "
+                               "this run does to the model") if ex else "",
+                              how="fields written outside __init__ = per-run state; syntax-directed walk: top-level stores/resetting helpers vs first uses (through self-helpers)",
+                              construct=f"{c.name}.{entry} uses {fld} before reset")
+                if not run_state:
+                    ctx.ob("R5", f"{c.name}.{entry}: no per-run state on the pass object", True, nontrivial=False, how="no self field written outside __init__")
+    ctx.tables["per-run state fields of pass classes"] = {k: v for k, v in sorted(table.items()) if v}
+    ctx.require(n_cls >= 15, f"only {n_cls} pass classes found")
+    ctx.require(n_fields >= 8, f"only {n_fields} per-run fields examined (RemoveUnusedFunctionsPass._used / InlinePass state expected)")
+
+
 def run(ctx):
+    rule_r5(ctx)
     rule_r1(ctx)
     rule_r2(ctx)
     rule_r3(ctx)
